@@ -185,7 +185,8 @@ class Variable(Node):
         from mwlib.parser.templ.evaluate import flatten, MemoryLimitError
         name = []
         flatten(self[0], expander, variables, name)
-        name = "".join(name).strip()
+        written = "".join(name)
+        name = written.strip()
         if len(name) > 256 * 1024:
             raise MemoryLimitError(f"template name too long: {len(name)} bytes")
 
@@ -196,7 +197,8 @@ class Variable(Node):
                 flatten(self[1], expander, variables, res)
             else:
                 # FIXME. breaks If ???
-                res.append(f"{{{{{{{name}}}}}}}")
+                # an unbound parameter stays as it was written, blanks included
+                res.append(f"{{{{{{{written}}}}}}}")
         else:
             res.append(v)
 
